@@ -1,3 +1,92 @@
-import Sheens.MatchSpec
+import Sheens.Proofs.MatchExtends
+import Sheens.Props.MatchTotal
 
-/-! Property C03 — theorems (in progress). -/
+/-!
+# Property C03 — Match is a pure function
+
+What is *proved* here is limited (see DESIGN.md §7, C03):
+
+* the full order-independence statement is kept visible (`order_independent_full`) and **refuted**
+  for the code as it is, with the two witnesses of the known findings KF-C03-1 and KF-C03-2
+  (evaluated in the kernel by `decide`); order independence on the rest of the domain is decided
+  per run by the correspondence over all key-order permutations, not by a theorem;
+* evaluation is a function (same arguments, same result) and more fuel never changes a result;
+* every result extends the bindings it was given (`matchF_extends`, unconditional).
+
+"Arguments are never modified, results are independent maps" lives below the level of this model
+(pure functions cannot modify their arguments); it is decided by the regenerated source facts
+(`FactsOK.match_copies_first`, `copyBindingss_copies`, `matcher_branches_copy`,
+`matcher_writes_only_locals_and_bindings`) and the snapshot / pointer-identity probes.
+-/
+
+namespace Sheens.C03
+
+/-- same success-or-error outcome and same multiset of binding sets (here: as lists up to the
+    order-insensitive comparison `resEq` supplied by the caller) for every order of the pattern's keys -/
+def order_independent_full : Prop :=
+  ∀ (n : Nat) (kvs kvs' : List (String × V)) (f : V) (bs : Bs),
+    kvs'.Perm kvs → matchF n (.obj kvs) f bs ≠ .diverge → matchF n (.obj kvs') f bs ≠ .diverge →
+    (∀ e, matchF n (.obj kvs) f bs = .err e ↔ matchF n (.obj kvs') f bs = .err e) ∧
+    (∀ rs, matchF n (.obj kvs) f bs = .ok rs → ∃ rs', matchF n (.obj kvs') f bs = .ok rs' ∧ rs'.length = rs.length)
+
+def okCount : MRes → Option Nat
+  | .ok l => some l.length
+  | _ => none
+
+def isErr : MRes → Bool
+  | .err _ => true
+  | _ => false
+
+/-- KF-C03-1: a variable used at two keys with structured values — bound at `a` first, `b`'s larger
+    value contains it (one result); bound at `b` first, `a`'s smaller value does not (no result). -/
+def kf1Fact : V := .obj [("a", .obj [("p", .num 1)]), ("b", .obj [("p", .num 1), ("q", .num 2)])]
+
+theorem kf1_a_first : okCount (matchF 40 (.obj [("a", .str "?x"), ("b", .str "?x")]) kf1Fact []) = some 1 := by decide
+theorem kf1_b_first : okCount (matchF 40 (.obj [("b", .str "?x"), ("a", .str "?x")]) kf1Fact []) = some 0 := by decide
+
+/-- KF-C03-2: invalid at key `a` (two variables in one array), merely non-matching at key `c`:
+    an error if `a` is visited first, a plain no-match if `c` is. -/
+def kf2Fact : V := .obj [("a", .arr [.num 1]), ("c", .num 4)]
+
+theorem kf2_a_first : isErr (matchF 40 (.obj [("a", .arr [.str "?x", .str "?y"]), ("c", .num 3)]) kf2Fact []) = true := by decide
+theorem kf2_c_first : okCount (matchF 40 (.obj [("c", .num 3), ("a", .arr [.str "?x", .str "?y"])]) kf2Fact []) = some 0 := by decide
+
+/-- The full statement is false of the matcher as it is (witness: KF-C03-1). -/
+theorem order_independent_full_false : ¬ order_independent_full := by
+  intro h
+  have hp : List.Perm [("b", V.str "?x"), ("a", V.str "?x")] [("a", V.str "?x"), ("b", V.str "?x")] :=
+    List.Perm.swap _ _ _
+  have h1 : matchF 40 (.obj [("a", .str "?x"), ("b", .str "?x")]) kf1Fact [] ≠ .diverge := by
+    intro hd; have := kf1_a_first; rw [hd] at this; simp [okCount] at this
+  have h2 : matchF 40 (.obj [("b", .str "?x"), ("a", .str "?x")]) kf1Fact [] ≠ .diverge := by
+    intro hd; have := kf1_b_first; rw [hd] at this; simp [okCount] at this
+  obtain ⟨_, hok⟩ := h 40 _ _ kf1Fact [] hp h1 h2
+  have ha := kf1_a_first
+  have hb := kf1_b_first
+  cases hm : matchF 40 (.obj [("a", .str "?x"), ("b", .str "?x")]) kf1Fact [] with
+  | ok rs =>
+    obtain ⟨rs', hrs', hlen⟩ := hok rs hm
+    rw [hm] at ha; rw [hrs'] at hb
+    simp only [okCount, Option.some.injEq] at ha hb
+    omega
+  | err e => rw [hm] at ha; simp [okCount] at ha
+  | diverge => exact h1 hm
+
+/-- Evaluation is a function of its arguments: evaluating again gives the same outcome. -/
+theorem match_deterministic (n : Nat) (p f : V) (bs : Bs) (r₁ r₂ : MRes)
+    (h₁ : matchF n p f bs = r₁) (h₂ : matchF n p f bs = r₂) : r₁ = r₂ := h₁ ▸ h₂
+
+/-- … whatever the fuel, once it suffices. -/
+theorem match_fuel_irrelevant (n m : Nat) (p f : V) (bs : Bs)
+    (hn : matchF n p f bs ≠ .diverge) (hm : matchF m p f bs ≠ .diverge) :
+    matchF n p f bs = matchF m p f bs := by
+  rcases Nat.le_total n m with h | h
+  · exact (Sheens.MatchTotal.matchF_mono_le n m p f bs _ h rfl hn).symm
+  · exact Sheens.MatchTotal.matchF_mono_le m n p f bs _ h rfl hm
+
+/-- Every result extends the bindings it was given (no hypotheses). -/
+theorem results_extend_given (n : Nat) (p f : V) (bs : Bs) (rs : List Bs) (r : Bs)
+    (h : matchF n p f bs = .ok rs) (hr : r ∈ rs) : ∀ k v, lookup k bs = some v → lookup k r = some v :=
+  matchF_extends h hr
+
+end Sheens.C03
